@@ -49,7 +49,8 @@ def sx_unit(job):
         out["findings"] = {k: v[0] for k, v in specs.contracts[name].findings.items()}
     if ur.error is None:
         for ob in cx.obligations:
-            out["obligations"].append({"name": ob.name, "query": cx.query(ob), "query_rel": cx.query(ob, relevant=True), "query_dir": cx.query(ob, relevant=True, level=0), "query_same": cx.query(ob, relevant=True, level="same"), "query_frame": cx.query(ob, relevant=True, level="frame"), "meta": ob.meta})
+            out["obligations"].append({"name": ob.name, "query": cx.query(ob), "query_rel": cx.query(ob, relevant=True), "query_dir": cx.query(ob, relevant=True, level=0), "query_same": cx.query(ob, relevant=True, level="same"), "query_frame": cx.query(ob, relevant=True, level="frame"),
+                                        "query_s3": cx.query(ob, relevant=True, level="small3000"), "query_s8": cx.query(ob, relevant=True, level="small8000"), "meta": ob.meta})
         covs = cx.covers
         if len(covs) > 6:
             step = len(covs) / 6.0
@@ -87,6 +88,15 @@ def discharge_all(units, timeout_s, jobs, thorough, retry=frozenset()):
             r = solve.solve_multi(first, 3.0, backends=cv)
             if r0 is not None:
                 r["tried"] = {**r0.get("tried", {}), **r.get("tried", {})}
+        qs3, qs8 = ob.pop("query_s3", None), ob.pop("query_s8", None)
+        if r["status"] != "unsat" and qs3:
+            # stage 1b: without the large hypothesis conjuncts (whole-structure invariants), both back ends
+            r1 = solve.solve_multi([("small3k", qs3, False), ("small8k", qs8, False)], min(timeout_s, 15.0))
+            r1["tried"] = {**r.get("tried", {}), **r1.get("tried", {})}
+            if r1["status"] == "unsat":
+                r = r1
+            else:
+                r["tried"] = r1["tried"]
         if r["status"] != "unsat":
             # stage 2: the full query on both back ends races the definitions-only query
             r2 = solve.solve_multi([("full", ob["query"], True), ("rel", qrel, False)] + ([("same", qsame, False)] if qsame else []), timeout_s)
